@@ -25,7 +25,7 @@ use super::*;
 pub mod mul {
 use super::*;
 //@@ SIG integer/mul/mul_word_in_place.rs
-//@@ SIG integer/mul/mul_dword_in_place.rs
+//@@ SIG integer/mul_algos/mul_dword_in_place.rs
 }
 pub mod add {
 use super::*;
